@@ -33,7 +33,9 @@ type FuncInfo struct {
 	factsReady bool
 	edgeFacts  map[[2]int][]Fact
 
-	summaryDepth int
+	summaryDepth  int
+	byID          map[string]ssa.Instruction
+	freshVisiting map[string]bool
 }
 
 // MemDef is one instruction that may write a class.
@@ -42,6 +44,7 @@ type MemDef struct {
 	Instr  ssa.Instruction
 	Cls    Class
 	Strong bool // overwrites exactly one local location
+	Havoc  bool // lock operation: everything under the class may have changed, earlier definitions are subsumed
 }
 
 func (p *Program) newFuncInfoLite(fn *ssa.Function) *FuncInfo {
@@ -205,6 +208,21 @@ func (fi *FuncInfo) ensureMem() {
 						strong = false
 					}
 				}
+				if strong {
+					// A whole-struct store to a local is expanded into one
+					// definition per leaf field, so that a later store to
+					// one field shadows exactly that field.
+					if leaves := structLeaves(in.Val.Type(), 0); len(leaves) > 0 {
+						for k, lf := range leaves {
+							lc := c
+							for _, f := range lf {
+								lc = lc.add(f)
+							}
+							add(in, lc, true, k+1)
+						}
+						continue
+					}
+				}
 				add(in, c, strong, 0)
 			case *ssa.MapUpdate:
 				add(in, fi.ObjClass(in.Map).add("[]"), false, 0)
@@ -218,8 +236,12 @@ func (fi *FuncInfo) ensureMem() {
 					// after RunDefers, which we treat at the RunDefers instr.
 					continue
 				}
+				_, _, isLock := LockOp(in.Common())
 				for k, w := range fi.CallWrites(in) {
 					add(in, w, false, k)
+					if isLock {
+						fi.defs[len(fi.defs)-1].Havoc = true
+					}
 				}
 			case *ssa.RunDefers:
 				k := 0
@@ -278,6 +300,27 @@ func (fi *FuncInfo) ensureMem() {
 	}
 }
 
+// structLeaves lists the leaf field paths of a struct type (nested structs are
+// expanded, arrays and everything else are leaves).
+func structLeaves(t types.Type, depth int) [][]string {
+	st, ok := t.Underlying().(*types.Struct)
+	if !ok || depth > 3 {
+		return nil
+	}
+	var out [][]string
+	for i := 0; i < st.NumFields(); i++ {
+		f := st.Field(i)
+		if sub := structLeaves(f.Type(), depth+1); len(sub) > 0 {
+			for _, s := range sub {
+				out = append(out, append([]string{f.Name()}, s...))
+			}
+			continue
+		}
+		out = append(out, []string{f.Name()})
+	}
+	return out
+}
+
 func (fi *FuncInfo) directLocalAddr(a ssa.Value) bool {
 	switch a := a.(type) {
 	case *ssa.Alloc:
@@ -290,6 +333,13 @@ func (fi *FuncInfo) directLocalAddr(a ssa.Value) bool {
 
 func (fi *FuncInfo) applyDefs(cur map[*MemDef]bool, ins ssa.Instruction) {
 	for _, d := range fi.defsAt[ins] {
+		if d.Havoc {
+			for o := range cur {
+				if o.Cls.Root == d.Cls.Root && pathPrefix(d.Cls.Path, o.Cls.Path) && len(o.Cls.Path) >= len(d.Cls.Path) {
+					delete(cur, o)
+				}
+			}
+		}
 		if d.Strong {
 			for o := range cur {
 				if o.Cls.Root == d.Cls.Root && len(o.Cls.Path) >= len(d.Cls.Path) && pathPrefix(d.Cls.Path, o.Cls.Path) {
@@ -326,6 +376,64 @@ func (fi *FuncInfo) VersionAt(at ssa.Instruction, c Class) string {
 	var ids []string
 	for d := range reach {
 		if fi.MayAlias(d.Cls, c) {
+			ids = append(ids, d.ID)
+		}
+	}
+	sort.Strings(ids)
+	return strings.Join(ids, ",")
+}
+
+// affects reports whether definition class d can change the value of type typ
+// stored at class c. A definition of a deeper location only matters if that
+// location is stored inline in the value (not behind a pointer, slice or map).
+func (fi *FuncInfo) affects(d, c Class, typ types.Type) bool {
+	if !fi.MayAlias(d, c) {
+		return false
+	}
+	if typ == nil || d.Root != c.Root || len(d.Path) <= len(c.Path) {
+		return true
+	}
+	t := typ
+	for _, comp := range d.Path[len(c.Path):] {
+		switch u := t.Underlying().(type) {
+		case *types.Struct:
+			if comp == "[]" {
+				return true
+			}
+			found := false
+			for i := 0; i < u.NumFields(); i++ {
+				if u.Field(i).Name() == comp {
+					t = u.Field(i).Type()
+					found = true
+					break
+				}
+			}
+			if !found {
+				return true
+			}
+		case *types.Array:
+			if comp != "[]" {
+				return true
+			}
+			t = u.Elem()
+		case *types.Pointer, *types.Slice, *types.Map, *types.Chan, *types.Signature:
+			return false // behind a reference
+		case *types.Interface:
+			return false
+		default:
+			return true
+		}
+	}
+	return true
+}
+
+// VersionAtTyped is VersionAt for a value of the given type: definitions of
+// locations behind a reference held in the value are ignored.
+func (fi *FuncInfo) VersionAtTyped(at ssa.Instruction, c Class, typ types.Type) string {
+	reach := fi.ReachingAt(at)
+	var ids []string
+	for d := range reach {
+		if fi.affects(d.Cls, c, typ) {
 			ids = append(ids, d.ID)
 		}
 	}
@@ -388,4 +496,19 @@ func InstrIndex(in ssa.Instruction) int {
 		}
 	}
 	return -1
+}
+
+// InstrByID returns the instruction with the given id (definition ids carry a
+// ".k" suffix that is ignored).
+func (fi *FuncInfo) InstrByID(id string) ssa.Instruction {
+	if i := strings.Index(id, "."); i >= 0 {
+		id = id[:i]
+	}
+	if fi.byID == nil {
+		fi.byID = map[string]ssa.Instruction{}
+		for in, s := range fi.ids {
+			fi.byID[s] = in
+		}
+	}
+	return fi.byID[id]
 }
